@@ -189,6 +189,16 @@ def _l2_traces(ctx, prop, histories=None, scn_name='base'):
         if prop in ('C03', 'C06', 'C07'):
             histories += [mcm.gen_allocs(mcm.SCENARIOS['base'], rng, rng.choice([2, 4, 6]))
                           for _ in range(n // 2)]
+        if prop == 'C04':
+            # several instances of the kinds that declare limits, servers coming and going
+            scnb = mcm.SCENARIOS['base']
+            lim = [i + 1 for i, p in enumerate(scnb['aprofiles']) if p.get('affinity_limits')]
+            for _ in range(n // 2):
+                h = [('CreateApp', [a, rng.choice(lim) if rng.random() < 0.8
+                                    else rng.randrange(len(scnb['aprofiles'])) + 1]) for a in scnb['apps']]
+                h.append(('Cycle', []))
+                h += [x for x in mcm.gen_servers(scnb, rng, rng.choice([3, 5])) if x[0] != 'CreateApp']
+                histories.append(h)
         if prop == 'C05':
             histories += [mcm.gen_identity(mcm.SCENARIOS['base'], rng, rng.choice([4, 6, 9]))
                           for _ in range(n // 2)]
